@@ -421,7 +421,9 @@ func runOpts(c *Ctx) {
 				fn := f
 				var lits []core.Lit
 				lits = append(lits, core.Lits(core.Guards(in.Block()))...)
+				keys := []ssa.Value{core.Strip(key)} // every spelling of the key on the way up: a guard may test any of them
 				for i := 0; i < 5; i++ {
+					keys = append(keys, core.Strip(key))
 					if prm, ok := core.Strip(key).(*ssa.Parameter); ok && prm.Parent() == fn && p.PrivateHelper(fn) {
 						sites := p.Callers(fn)
 						if len(sites) != 1 {
@@ -456,6 +458,22 @@ func runOpts(c *Ctx) {
 					if l.Kind == "cmp" && l.Op == token.EQL && !l.Pol {
 						if s0, ok := core.ConstString(l.Y); ok && s0 == "" && (l.X == key || core.Path(l.X) == core.Path(key)) {
 							nonEmpty = true
+						}
+						if s0, ok := core.ConstString(l.Y); ok && s0 == "" {
+							normK := func(v ssa.Value) ssa.Value {
+								v = core.Strip(v)
+								if u, isU := v.(*ssa.UnOp); isU && u.Op == token.MUL {
+									if fv, isF := u.X.(*ssa.FreeVar); isF {
+										return fv
+									}
+								}
+								return v
+							}
+							for _, kv := range append(keys, core.Strip(key)) {
+								if normK(l.X) == normK(kv) {
+									nonEmpty = true
+								}
+							}
 						}
 					}
 				}
@@ -1221,6 +1239,88 @@ func (c *Ctx) runTags(walker *ssa.Function) {
 			}
 			c.R.Undecided("TAGS", key, core.FuncName(f), p.InstrPos(in), "struct tag built from an unrecognised expression "+core.Path(src))
 		})
+	}
+
+	// a valued option is written for named and type-only values alike: no path to the tag's construction skips the call
+	// that renders `key=%s` other than over the "value is empty" edge of an emptiness test (a guard on the value's kind
+	// or name would drop the option for some values). When the tag is put together in another function than the one
+	// rendering the option, the dominating guards of the rendering are inspected instead.
+	for _, f := range p.ArgFuncs() {
+		for _, ci := range core.Calls(f, "fmt.Sprintf") {
+			cl, ok := ci.(*ssa.Call)
+			if !ok || len(cl.Common().Args) == 0 {
+				continue
+			}
+			format, isK := core.ConstString(cl.Common().Args[0])
+			if !isK || !strings.HasSuffix(format, "=%s") || !readerOpts[strings.TrimSuffix(format, "=%s")] {
+				continue
+			}
+			var writers []*ssa.BasicBlock
+			for _, b := range f.Blocks {
+				for _, in := range b.Instrs {
+					switch x := in.(type) {
+					case *ssa.ChangeType:
+						if core.TypeStr(x.Type()) == "reflect.StructTag" {
+							writers = append(writers, b)
+						}
+					case *ssa.Convert:
+						if core.TypeStr(x.Type()) == "reflect.StructTag" {
+							writers = append(writers, b)
+						}
+					}
+				}
+			}
+			bad := ""
+			if len(writers) > 0 {
+				cut := map[[2]*ssa.BasicBlock]bool{}
+				for _, pr := range cl.Block().Preds {
+					cut[[2]*ssa.BasicBlock{pr, cl.Block()}] = true
+				}
+				for _, b := range f.Blocks {
+					iff, isIf := b.Instrs[len(b.Instrs)-1].(*ssa.If)
+					if !isIf {
+						continue
+					}
+					bo, isB := iff.Cond.(*ssa.BinOp)
+					if !isB || (bo.Op != token.EQL && bo.Op != token.NEQ) {
+						continue
+					}
+					sx, okx := core.ConstString(bo.X)
+					sy, oky := core.ConstString(bo.Y)
+					if (okx && sx == "") || (oky && sy == "") {
+						if bo.Op == token.EQL {
+							cut[[2]*ssa.BasicBlock{b, b.Succs[0]}] = true
+						} else {
+							cut[[2]*ssa.BasicBlock{b, b.Succs[1]}] = true
+						}
+					}
+				}
+				for _, w := range writers {
+					if w != cl.Block() && core.Reachable(f.Blocks[0], w, cut) {
+						bad = "the tag built at " + p.InstrPos(w.Instrs[0]) + " can be reached without rendering the option although its value is not empty"
+					}
+				}
+			} else {
+				for _, l := range p.ILits(cl.Block()) {
+					if core.IsLoopBound(l) {
+						continue
+					}
+					if l.Kind == "cmp" && (l.Op == token.EQL || l.Op == token.NEQ) {
+						if s, isS := core.ConstString(l.X); isS && s == "" {
+							continue
+						}
+						if s, isS := core.ConstString(l.Y); isS && s == "" {
+							continue
+						}
+					}
+					bad = "also guarded by " + l.String()
+				}
+			}
+			c.R.Func(core.FuncName(f))
+			c.R.Add("TAGS", fmt.Sprintf("%s|valued-option-for-every-kind|%s", core.FuncName(f), format), core.FuncName(f), p.InstrPos(cl), bad == "",
+				"a generated tag carries the valued option whenever the value has one, for named and type-only values alike (only the emptiness of the option's value decides)",
+				ternary(bad == "", "no path to the tag skips the rendering other than for an empty value", bad))
+		}
 	}
 
 	// reader structure: name override from part 0; options from parts[1:]; option parsing not conditional on the name part
@@ -2480,6 +2580,39 @@ func (c *Ctx) runNilFunc() {
 		}
 		return true
 	}
+	// the list a private step collected, every element of which was tested non-nil where it was appended
+	stepListNonNil := func(src ssa.Value) bool {
+		ex, ok := src.(*ssa.Extract)
+		if !ok {
+			return false
+		}
+		hc, ok := ex.Tuple.(*ssa.Call)
+		if !ok {
+			return false
+		}
+		h := hc.Common().StaticCallee()
+		if h == nil || !p.PrivateHelper(h) {
+			return false
+		}
+		all, any := true, false
+		for _, hr := range core.Returns(h) {
+			if ex.Index >= len(hr.Results) {
+				continue
+			}
+			if k, isK := hr.Results[ex.Index].(*ssa.Const); isK && k.Value == nil {
+				continue
+			}
+			for _, ap := range appendSites(h, hr.Results[ex.Index]) {
+				for _, e := range appendedValues(ap) {
+					any = true
+					if !nilCheckLit(core.Lits(core.Guards(ap.Block())), e, false) {
+						all = false
+					}
+				}
+			}
+		}
+		return all && any
+	}
 	n := 0
 	for _, f := range p.ArgFuncs() {
 		for _, ci := range core.Calls(f, "builtin.append") {
@@ -2553,9 +2686,17 @@ func (c *Ctx) runNilFunc() {
 			bad := ""
 			for _, v := range elems {
 				okv := false
+				elemOfStepList := false
+				if ld, isLd := core.Strip(v).(*ssa.UnOp); isLd {
+					if ia, isIA := ld.X.(*ssa.IndexAddr); isIA && stepListNonNil(core.Strip(ia.X)) {
+						elemOfStepList = true
+					}
+				}
 				switch {
 				case nilCheckLit(lits, v, false):
 					okv = true
+				case elemOfStepList:
+					okv = true // an element of a list a private step collected from non-nil values only
 				default:
 					for _, sv := range core.Sources(v) {
 						if _, fresh := sv.(*ssa.Alloc); fresh {
